@@ -157,6 +157,7 @@ package core
 //@   modifies treeMod(core)
 //@   ensures imp(result == nil, core.currentDirective == nil)
 //@   ensures imp(result != nil, core.currentDirective == old(core.currentDirective))
+//@   ensures imp(old(core.currentDirective) == nil, result == nil)
 
 // ---------------------------------------------------------------------------
 // Banned directives (C19). The set is written only by the option, before the build.
@@ -232,11 +233,13 @@ package core
 //@   invariant implicitTo(old(core.currentContextDirective), core.currentContextDirective)
 
 //@ func (*JApiCore).processEOF(core)
-//@   property C01,C11
+//@   property C01,C11,C09
 //@   requires coreScanInv(core)
 //@   modifies treeMod(core)
 //@   ensures imp(result == nil, coreScanInv(core) && core.currentDirective == nil)
 //@   ensures[C11,@eof-unclosed] imp(result == nil && len(core.scannersStack.stack) == 0, !openUp(core.currentContextDirective))
+// the end of an INCLUDEd file (the include stack is not empty) never rejects an open "(": the including file may close it (C09)
+//@   ensures[C09,@nested-eof-accepts-open-context] imp(old(core.currentDirective) == nil && old(len(core.scannersStack.stack)) > 0, result == nil)
 
 //@ func (*JApiCore).isScanningFinished(core)
 //@   property C01,C09
@@ -682,22 +685,22 @@ package core
 //@ extern (github.com/jsightapi/jsight-api-core/catalog.InteractionID).String(i)
 //@   attr pure deterministic nopanic
 //@ func (*JApiCore).validateResponseBody$1(k, v)
-//@   property C05
+//@   property C05,C03
 //@   attr assumesafe
 //@   modifies nothing
 //@   ensures[C05,@response-has-body] imp(result == nil && typeis(v, *catalog.HTTPInteraction), forallp(j, at((*catalog.HTTPInteraction)(v.ref).Responses, j),
 //@       imp((*catalog.HTTPInteraction)(v.ref).Responses.off <= j && j < (*catalog.HTTPInteraction)(v.ref).Responses.off + len((*catalog.HTTPInteraction)(v.ref).Responses),
 //@           at((*catalog.HTTPInteraction)(v.ref).Responses, j).Body != nil)))
-//@   ensures[C05,@no-typed-nil-error] imp(result != nil, result.ref != 0)
+//@   ensures[C05,C03,@no-typed-nil-error] imp(result != nil, result.ref != 0)
 //@ func (*JApiCore).validateResponseBody$1 loop 1
 //@   invariant 0 <= (*catalog.HTTPInteraction)(v.ref).Responses.off && forallp(j, at((*catalog.HTTPInteraction)(v.ref).Responses, j), imp((*catalog.HTTPInteraction)(v.ref).Responses.off <= j && j < (*catalog.HTTPInteraction)(v.ref).Responses.off + rangeindex + 1, at((*catalog.HTTPInteraction)(v.ref).Responses, j).Body != nil))
 //@ func (*JApiCore).validateRequestBody$1(k, v)
-//@   property C05
+//@   property C05,C03
 //@   attr assumesafe
 //@   modifies nothing
 //@   ensures[C05,@request-has-body] imp(result == nil && typeis(v, *catalog.HTTPInteraction) && (*catalog.HTTPInteraction)(v.ref).Request != nil,
 //@       (*catalog.HTTPInteraction)(v.ref).Request.HTTPRequestBody != nil)
-//@   ensures[C05,@no-typed-nil-error] imp(result != nil, result.ref != 0)
+//@   ensures[C05,C03,@no-typed-nil-error] imp(result != nil, result.ref != 0)
 //@ func (*JApiCore).validateInfo(core)
 //@   property C03
 //@   attr assumesafe
